@@ -57,6 +57,52 @@ class Shape:
         )
 
 
+def from_bytes(name, hay, term=T_LF):
+    """Shape from explicit bytes (used for the NUL-bearing C14 shapes): lines
+    split on the terminator byte; clen = content length."""
+    tb = {T_LF: b"\n", T_CRLF: b"\n", T_NUL: b"\0"}[term]
+    sh = Shape.__new__(Shape)
+    sh.name = name
+    sh.term = term
+    sh.hay = hay
+    lstart = []
+    clen = []
+    i = 0
+    while i < len(hay):
+        lstart.append(i)
+        j = hay.find(tb, i)
+        if j < 0:
+            clen.append(len(hay) - i)
+            i = len(hay)
+        else:
+            clen.append(j - i)
+            i = j + 1
+    lstart.append(len(hay))
+    sh.lstart = lstart
+    sh.clen = clen
+    sh.nl = len(clen)
+    sh.lines = None
+    return sh
+
+
+# NUL-bearing shapes for C14 and their "converted" twins (every NUL replaced by
+# the terminator); letters are unique per line of the converted twin
+NUL_SPECS = [
+    ("n_mid", b"a\nb\0c\nd\n"),
+    ("n_first", b"\0b\n"),
+    ("n_last", b"a\nb\0"),
+    ("n_double", b"a\0\0c\n"),
+    ("n_none", b"a\nb\n"),
+]
+
+
+def nul_shapes():
+    out = []
+    for n, hay in NUL_SPECS:
+        out.append((from_bytes(n, hay), from_bytes(n + "_conv", hay.replace(b"\0", b"\n"))))
+    return out
+
+
 def _mk(name, spec, term=T_LF):
     """spec: string over the line alphabet: digits = content length, then
     'n' = \\n, 'r' = \\r\\n, 'z' = NUL, '-' = no terminator; e.g. "1n0n1-" """
@@ -144,6 +190,11 @@ def all_shapes(max_lines=5, max_bytes=9):
 
 
 def by_name(name):
+    for a, b in nul_shapes():
+        if a.name == name:
+            return a
+        if b.name == name:
+            return b
     for n, sp, t in EXTRA_SPECS:
         if n == name:
             return _mk(n, sp, t)
@@ -162,14 +213,16 @@ def gen_file(instances):
     instance named <fn>__<shape>."""
     out = ["// GENERATED by lib/rgverif/shapes.py -- do not edit\n"]
     seen = set()
-    for sh, _fn, _u in instances:
-        if sh.name not in seen:
-            seen.add(sh.name)
-            out.append("#[allow(non_camel_case_types)]\n" + sh.decl())
-    for sh, fn, unwind in instances:
+    for shs, _fn, _u in instances:
+        for sh in (shs if isinstance(shs, tuple) else (shs,)):
+            if sh.name not in seen:
+                seen.add(sh.name)
+                out.append("#[allow(non_camel_case_types)]\n" + sh.decl())
+    for shs, fn, unwind in instances:
+        tup = shs if isinstance(shs, tuple) else (shs,)
         out.append(
-            "#[kani::proof]\n#[kani::unwind({u})]\nfn {fn}__{sn}() {{\n    {fn}::<{sn}>()\n}}\n".format(
-                u=unwind, fn=fn, sn=sh.name
+            "#[kani::proof]\n#[kani::unwind({u})]\nfn {fn}__{sn}() {{\n    {fn}::<{tp}>()\n}}\n".format(
+                u=unwind, fn=fn, sn=tup[0].name, tp=", ".join(t.name for t in tup)
             )
         )
     return "\n".join(out)
